@@ -141,19 +141,45 @@ structure OracleEntry where
   i : Nat
   type : Bytes
   data : Bytes
-  fb : Option DebugFb
+  /-- what the real `examineConnectErrorDetailDebugData` printed -/
+  fb : List String
+  /-- the outcome of each library call, computed by the harness -/
+  steps : DebugSteps
+
+def stepsOf (j : Json) : DebugSteps :=
+  { resolved := bool (field j "resolved"), valueOK := bool (field j "valueOk"),
+    directOK := bool (field j "directOk"), eqDirect := bool (field j "eqDirect"),
+    anyUrl := if bool (field j "anyOk") then some (unhex (str (field j "anyUrl"))) else none,
+    newOK := bool (field j "newOk"), eqAny := bool (field j "eqAny") }
 
 def oracleEntries (j : Json) : List OracleEntry :=
   (arr j).map fun e =>
     { i := nat (field e "i"), type := unhex (str (field e "type")), data := unhex (str (field e "data")),
-      fb := ((strList (field e "fb")).head?).bind (fun c => allDebug.find? (fun f => DebugFb.cls f == c)) }
+      fb := strList (field e "fb"), steps := stepsOf (field e "steps") }
 
-/-- the oracle the harness computed with the real protojson comparison; `dflt` where it has
-no entry -/
+/-- all library calls fail: the outcome where the harness has no entry -/
+def noSteps : DebugSteps :=
+  { resolved := false, valueOK := false, directOK := false, eqDirect := false, anyUrl := none, newOK := false, eqAny := false }
+
+/-- the library outcomes the harness computed; `none` where it has no entry -/
+def stepsFor (es : List OracleEntry) (i : Nat) (t d : Bytes) : Option DebugSteps :=
+  (es.find? (fun e => e.i == i && e.type == t && e.data == d)).map (·.steps)
+
+/-- the comparison as the model makes it from the library outcomes (`debugDataFb`); `dflt` where
+the harness has no entry -/
 def oracleOf (es : List OracleEntry) (dflt : Option DebugFb) : DebugOracle := fun i t d =>
-  match es.find? (fun e => e.i == i && e.type == t && e.data == d) with
-  | some e => e.fb
+  match stepsFor es i t d with
+  | some s => debugDataFb t s
   | none => dflt
+
+/-- the declarative side: silent exactly on well-formed debug data (`debugOK`) -/
+def specOracleOf (es : List OracleEntry) : DebugOracle :=
+  debugSpecOracle (fun i t d => (stepsFor es i t d).getD noSteps)
+
+/-- the entries on which the real function does not print what the model derives from the
+library outcomes -/
+def debugDisagreements (es : List OracleEntry) : List OracleEntry :=
+  es.filter fun e => e.fb != ((debugDataFb e.type e.steps).map DebugFb.cls).toList
 
 /-- (code, message, details) of a document of the shape connect-go's error writer produces -/
 def ownErrorOf (doc : CJ) : Option (Nat × Bytes × List Detail) :=
@@ -216,6 +242,7 @@ def judgeJSON (endStream : Bool) (kind : String) (impl : Json) : Verdict :=
   -- injected malformation
   let genHolds : Bool × String :=
     if kind == "own" then (fb.isEmpty, s!"feedback on a well-formed document written by the repository's own server: {fb}")
+    else if kind == "anyform" then (fb.isEmpty, s!"feedback on a well-formed document whose debug data is the detail's message in google.protobuf.Any form (only the text after the last slash of a type URL names the type): {fb}")
     else if kind.startsWith "mut:" then (!fb.isEmpty, s!"injected malformation {kind} not reported")
     else (true, "")
   if !bool (field impl "tokenized") then
@@ -234,15 +261,23 @@ def judgeJSON (endStream : Bool) (kind : String) (impl : Json) : Verdict :=
   let oracleMissing := run (oracleOf entries (some .mismatch)) != m
   let mCls := sortStrings (m.map CFb.cls)
   let known := fb.filterMap cfbOf
+  -- the property's predicate is evaluated with the declarative oracle (debugOK: the type URL
+  -- names the detail's type, whatever its prefix)
+  let dbgSpec := specOracleOf entries
   let specHolds := known.length == fb.length &&
-    (if endStream then endStreamHolds dbg doc known else errorHolds dbg doc known)
-  let wellFormed := if endStream then endStreamOK dbg doc else errorOK dbg doc
+    (if endStream then endStreamHolds dbgSpec doc known else errorHolds dbgSpec doc known)
+  let wellFormed := if endStream then endStreamOK dbgSpec doc else errorOK dbgSpec doc
   -- the server's own documents are values of the encoder model within the theorem's hypotheses
-  let own := if kind == "own" then ownImage endStream dbg doc else (true, "")
+  let own := if kind == "own" || kind == "anyform" then ownImage endStream dbgSpec doc else (true, "")
   let holds := specHolds && genHolds.1
-  { agree := mCls == sortStrings fb && !oracleMissing && own.1, holds := holds,
+  -- the real debug comparison prints what the model derives from the library outcomes
+  let dbgBad := debugDisagreements entries
+  { agree := mCls == sortStrings fb && !oracleMissing && own.1 && dbgBad.isEmpty, holds := holds,
     nontrivial := true, model := toJson mCls,
-    why := if holds then (if own.1 then (if oracleMissing then "debug oracle has no entry for a comparison the model reaches" else "") else "own document: " ++ own.2)
+    why := if holds then (if own.1 then (if oracleMissing then "debug oracle has no entry for a comparison the model reaches"
+          else match dbgBad.head? with
+            | some e => s!"debug comparison of details[{e.i}] (type {(String.fromUTF8? ⟨e.type.toArray⟩).getD (hex e.type)}): the examiner printed {e.fb}, the model derives {((debugDataFb e.type e.steps).map DebugFb.cls).toList} from the library outcomes {reprStr e.steps}"
+            | none => "") else "own document: " ++ own.2)
       else if !genHolds.1 then genHolds.2
       else s!"well-formed={wellFormed}, must flag {reprStr (if endStream then mustFlagEndStream doc else mustFlagError doc)}, feedback {fb}",
     cls := cls }
